@@ -768,6 +768,13 @@ func (c *Client) Start() (addr net.Addr, err error) {
 	// logStderr calls c.pipesWaitGroup.Done()
 	go c.logStderr(runner.Name(), runner.Stderr())
 
+	// Count the stdout reader (started below) before the goroutine that waits
+	// on pipesWaitGroup exists: if stderr hits EOF first, the counter would
+	// otherwise drop to zero and be re-incremented while that Wait is returning,
+	// which sync.WaitGroup forbids (it panics with "WaitGroup is reused before
+	// previous Wait has returned") and which lets cmd.Wait() close stdout early.
+	c.pipesWaitGroup.Add(1)
+
 	c.clientWaitGroup.Add(1)
 	go func() {
 		// ensure the context is cancelled when we're done
@@ -800,7 +807,6 @@ func (c *Client) Start() (addr net.Addr, err error) {
 	// out of stdout
 	linesCh := make(chan string)
 	c.clientWaitGroup.Add(1)
-	c.pipesWaitGroup.Add(1)
 	go func() {
 		defer c.clientWaitGroup.Done()
 		defer c.pipesWaitGroup.Done()
